@@ -32,3 +32,125 @@ def _get_series_time_offsets(series_list, head_step, result):
     ensures(forall_int(lambda h: implies(h in result[2], len(result[2][h]) >= 2)))
     ensures(forall_int(lambda h, q: implies(h in result[2] and 0 <= q and q < len(result[2][h]),
             exists(0, len(result[0]), lambda i: result[0][i] == result[2][h][q][0]))))
+
+
+# --------------------------------------------------------------------------- find_offsets (C05: the bridge to lean/LeastSquares.lean)
+
+@spec
+def in_level(hm, h, s):
+    """Series s has a crossing at level h."""
+    return exists(0, len(hm[h]), lambda p: hm[h][p][0] == s)
+
+
+@spec
+def row_off(offs, j):
+    """Number of rows assembled before the j-th level of the enumeration."""
+    return 0 if j == 0 else offs[j - 1]
+
+
+@spec
+def row_place(items, offs, rj, rp, r):
+    """Row r belongs to the rp[r]-th crossing of the rj[r]-th level (in the order in which the levels are enumerated)."""
+    return (0 <= rj[r] and rj[r] < len(items) and 0 <= rp[r] and rp[r] < len(items[rj[r]][1])
+            and r == row_off(offs, rj[r]) + rp[r])
+
+
+@spec
+def row_A(hm, items, ids, A, rj, rp, r):
+    """Row r is row designA of lean/LeastSquares.lean for its (level, series): 1/n in the column of every
+    non-reference series present at the level, minus 1 in the column of the row's own series (if not the reference)."""
+    return (len(A[r]) == len(ids) - 1
+            and forall(0, len(ids) - 1, lambda c: A[r][c] ==
+                       (1.0 / len(items[rj[r]][1]) if in_level(hm, items[rj[r]][0], ids[c]) else 0.0)
+                       - (1.0 if ids[c] == items[rj[r]][1][rp[r]][0] else 0.0)))
+
+
+@spec
+def row_b(items, means, b, rj, rp, r):
+    """designB: crossing time minus the level's mean."""
+    return b[r] == items[rj[r]][1][rp[r]][1] - means[rj[r]]
+
+
+@contract("spowtd.fit_offsets:find_offsets", args={"head_mapping": "dict[int,list[tuple[int,real]]]"},
+          returns="tuple[list[int],array[real]]",
+          ghost_results={"g_hm": "dict[int,list[tuple[int,real]]]", "g_items": "list[tuple[int,list[tuple[int,real]]]]",
+                         "g_off": "array[int]", "g_means": "list[real]", "g_A": "array[array[real]]", "g_b": "array[real]",
+                         "g_rj": "list[int]", "g_rp": "list[int]"})
+def _find_offsets(head_mapping, result):
+    """C05, bridge between the code and lean/LeastSquares.lean: the matrix and right-hand side that find_offsets
+    assembles are designA / designB (one row per (level, series at that level) over the levels with at least two
+    series, one column per non-reference series, the reference being the largest series id), and the returned
+    offsets are the solution numpy.linalg.solve returns for the normal equations of that system, followed by 0
+    for the reference."""
+    requires(forall_int(lambda h: implies(h in head_mapping, len(head_mapping[h]) >= 1)))
+    requires(forall_int(lambda h: implies(h in head_mapping, forall(0, len(head_mapping[h]), lambda q: forall(0, q, lambda p:
+             head_mapping[h][p][0] != head_mapping[h][q][0])))))
+    requires(exists_int(lambda h: h in head_mapping and len(head_mapping[h]) >= 2))
+    may_raise(LinAlgError)
+    ghost(before="for head_id, seq in list(head_mapping.items())", let="g_it0", do=lambda: list(head_mapping.items()))
+    loop(0, inv=lambda it: forall_int(lambda h: (h in head_mapping) == (h in old(head_mapping) and not exists(0, it, lambda j:
+         g_it0[j][0] == h and len(g_it0[j][1]) == 1)))
+         and forall_int(lambda h: implies(h in head_mapping, head_mapping[h] == old(head_mapping)[h])))
+    ghost(before="series_ids = (", let="g_hm", do=lambda: head_mapping)
+    ghost(before="A = np.zeros(", let="g_items", do=lambda: list(head_mapping.items()))
+    ghost(before="A = np.zeros(", let="g_cnt", do=lambda: [len(series_at_head) for series_at_head in list(head_mapping.values())])
+    ghost(before="A = np.zeros(", let="g_off", do=lambda: prefix_sums(g_cnt))
+    ghost(before="A = np.zeros(", do=lambda: prefix_sums_monotone(g_cnt, g_off))
+    ghost(before="A = np.zeros(", do=lambda: cut(number_of_equations == (0 if len(g_items) == 0 else g_off[len(g_items) - 1])))
+    ghost(before="A = np.zeros(", let="g_means", do=lambda: [])
+    ghost(before="A = np.zeros(", let="g_rj", do=lambda: [])
+    ghost(before="A = np.zeros(", let="g_rp", do=lambda: [])
+    ghost(before="row_template[:] = 0", do=lambda: cut(head_id == g_items[loop_it(1)][0] and series_at_head == g_items[loop_it(1)][1]))
+    ghost(before="row_template[:] = 0", do=lambda: cut(g_off[loop_it(1)] == row_off(g_off, loop_it(1)) + len(series_at_head)))
+    ghost(before="row_template[:] = 0", do=lambda: cut(g_off[loop_it(1)] <= number_of_equations))
+    ghost(after="series_indices = dict(", do=lambda: cut(forall(0, len(series_ids), lambda j:
+          series_ids[j] in series_indices and series_indices[series_ids[j]] == j)))
+    ghost(after="series_indices = dict(", do=lambda: cut(forall_int(lambda s: implies(
+          s in series_indices, 0 <= series_indices[s] and series_indices[s] < len(series_ids) and series_ids[series_indices[s]] == s))))
+    ghost(after="number_of_series_at_head = len(sids)", do=lambda: cut(
+          number_of_series_at_head == len(series_at_head)
+          and forall(0, len(series_at_head), lambda q: sids[q] == series_at_head[q][0] and times[q] == series_at_head[q][1])))
+    ghost(after="number_of_series_at_head = len(sids)", do=lambda: cut(forall(0, len(sids), lambda q: sids[q] in series_indices)))
+    ghost(after="reference_index = ", do=lambda: cut(reference_index == series_ids[len(series_ids) - 1]))
+    ghost(before="row_template[:] = 0", do=lambda: cut(head_id in g_hm and g_hm[head_id] == series_at_head))
+    ghost(after="row_template[indices] = ", do=lambda: cut(forall(0, number_of_unknowns, lambda c: implies(
+          in_level(g_hm, head_id, series_ids[c]), row_template[c] == 1.0 / len(series_at_head)))))
+    ghost(after="row_template[indices] = ", do=lambda: cut(forall(0, number_of_unknowns, lambda c: implies(
+          not in_level(g_hm, head_id, series_ids[c]), row_template[c] == 0.0))))
+    ghost(after="mean_time = np.mean(times)", let="g_means", do=lambda: g_means + [mean_time])
+    ghost(before="A[row_index] = row_template", let="g_rj", do=lambda: g_rj + [loop_it(1)])
+    ghost(before="A[row_index] = row_template", let="g_rp", do=lambda: g_rp + [loop_it(2)])
+    loop(1, types={"g_means": "list[real]", "g_rj": "list[int]", "g_rp": "list[int]"},
+         inv=lambda it: row_index == row_off(g_off, it) and len(g_means) == it and len(g_rj) == row_index and len(g_rp) == row_index
+         and len(A) == number_of_equations and len(b) == number_of_equations and len(row_template) == number_of_unknowns
+         and forall(0, len(A), lambda r: len(A[r]) == number_of_unknowns)
+         and forall(0, row_index, lambda r: row_place(g_items, g_off, g_rj, g_rp, r))
+         and forall(0, row_index, lambda r: row_A(g_hm, g_items, series_ids, A, g_rj, g_rp, r))
+         and forall(0, row_index, lambda r: row_b(g_items, g_means, b, g_rj, g_rp, r)))
+    loop(2, types={"g_rj": "list[int]", "g_rp": "list[int]"},
+         inv=lambda it: row_index == row_off(g_off, loop_it(1)) + it and len(g_rj) == row_index and len(g_rp) == row_index
+         and len(A) == number_of_equations and len(b) == number_of_equations
+         and forall(0, len(A), lambda r: len(A[r]) == number_of_unknowns)
+         and forall(0, row_index, lambda r: row_place(g_items, g_off, g_rj, g_rp, r))
+         and forall(0, row_index, lambda r: row_A(g_hm, g_items, series_ids, A, g_rj, g_rp, r))
+         and forall(0, row_index, lambda r: row_b(g_items, g_means, b, g_rj, g_rp, r)))
+    ghost(before="ATA = np.dot(", let="g_A", do=lambda: A)
+    ghost(before="ATA = np.dot(", let="g_b", do=lambda: b)
+    ensures(forall_int(lambda h: (h in g_hm) == (h in old(head_mapping) and len(old(head_mapping)[h]) >= 2)))
+    ensures(forall_int(lambda h: implies(h in g_hm, g_hm[h] == old(head_mapping)[h])))
+    # the series ids, ascending; the reference is the last
+    ensures(len(result[0]) >= 1 and forall(0, len(result[0]), lambda j: forall(0, j, lambda i: result[0][i] < result[0][j])))
+    ensures(forall_int(lambda s: exists(0, len(result[0]), lambda j: result[0][j] == s)
+                       == exists_int(lambda h: h in g_hm and in_level(g_hm, h, s))))
+    ensures(len(result[1]) == len(result[0]) and result[1][len(result[0]) - 1] == 0)
+    # the rows
+    ensures(len(g_items) == len(g_hm) and len(g_off) == len(g_items) and len(g_means) == len(g_items))
+    ensures(forall(0, len(g_items), lambda j: g_items[j][0] in g_hm and g_items[j][1] == g_hm[g_items[j][0]]))
+    ensures(forall(0, len(g_off), lambda j: g_off[j] == row_off(g_off, j) + len(g_items[j][1])))
+    ensures(len(g_A) == (0 if len(g_items) == 0 else g_off[len(g_items) - 1]) and len(g_b) == len(g_A)
+            and len(g_rj) == len(g_A) and len(g_rp) == len(g_A))
+    ensures(forall(0, len(g_A), lambda r: row_place(g_items, g_off, g_rj, g_rp, r)))
+    ensures(forall(0, len(g_A), lambda r: row_A(g_hm, g_items, result[0], g_A, g_rj, g_rp, r)))
+    ensures(forall(0, len(g_A), lambda r: row_b(g_items, g_means, g_b, g_rj, g_rp, r)))
+    # the offsets: what numpy.linalg.solve returned for the normal equations of exactly this (A, b), then 0
+    ensures(forall(0, len(result[0]) - 1, lambda c: result[1][c] == lstsq_solution(g_A, g_b)[c]))
